@@ -765,7 +765,9 @@ impl Service {
                         peer_key
                             .log2_distance(&enr.node_id().into())
                             .map(|distance| distances_requested.contains(&distance))
-                            .unwrap_or_else(|| false)
+                            // The peer's own record is what it returns for distance 0, which we
+                            // request alongside the lowest distances (e.g. [1, 2, 0]).
+                            .unwrap_or_else(|| distances_requested.contains(&0))
                     });
 
                     if nodes.len() < before_len {
